@@ -37,12 +37,12 @@ BOUNDS = {
     "quick": (
         "2-d. Block A (python inverter, default eta, all 2^|dF| assignments): C(2,2) and T(2,2) with the "
         "interior node on all 9 offsets {0,+-0.1}^2, K in {full, rot}; C(3,2) with 2 two-node patterns, K=full "
-        "(1024 assignments each). Block B (K in {I,diag,full,rot} x eta in {default,0,1/3} x inverter in "
-        "{python,numba}): 7 grid letters (Cartesian/triangle, unperturbed, perturbed, affine) x (16 side-wise "
+        "(1024 assignments each). Block B (K in {I,diag,full,rot} x [eta in {default,0,1/3} with the python "
+        "inverter, default eta with the numba inverter]): 7 grid letters (Cartesian/triangle, unperturbed, perturbed, affine) x (16 side-wise "
         "assignments U all single-face flips of all-Dir and all-Neu)."
     ),
     "thorough": (
-        "quick + Block A with all 4 K and eta in {default,0,1/3}; C(3,2): all 81 two-node patterns x (side-wise U "
+        "quick + Block B with the full eta x inverter product; Block A with all 4 K and eta in {default,0,1/3}; C(3,2): all 81 two-node patterns x (side-wise U "
         "single U pair flips) and 9 patterns x all 1024; 3-d: Tet(1,1,1) (3 node patterns, all 4096 assignments), "
         "Tet(2,1,1) (27 offsets of a mid-plane node), Tet(2,2,2) (interior node, 7 offsets), C(2,2,2) under "
         "{id, shear, rotscale}: side-wise (64) U single U pair flips; K x eta x inverter product on side-wise U "
@@ -116,6 +116,8 @@ def cases(tier):
         for K in G.K_LETTERS:
             for eta in ETAS:
                 for inv in ("python", "numba"):
+                    if tier == "quick" and inv == "numba" and eta is not None:
+                        continue  # quick: numba (the default inverter) with the default eta only
                     _emit(out, spec, K, eta, inv, "flip1", 40)
 
     if tier == "thorough":
